@@ -226,12 +226,12 @@ pub fn property() -> Property {
         ],
         health: vec![("cf.structured", "backward-jump", 200), ("cf.repeats", "nested-repeat", 200)],
         subs: vec![
-            prop_sub("cf.jumps", 12_000, 600_000, |_| jump_case(), oracle),
-            prop_sub("cf.repeats", 12_000, 600_000, |_| repeat_case(), oracle),
-            prop_sub("cf.halts", 6_000, 300_000, |_| halt_case(), oracle),
+            prop_sub("cf.jumps", 36_000, 600_000, |_| jump_case(), oracle),
+            prop_sub("cf.repeats", 36_000, 600_000, |_| repeat_case(), oracle),
+            prop_sub("cf.halts", 18_000, 300_000, |_| halt_case(), oracle),
             prop_sub(
                 "cf.structured",
-                6_000,
+                18_000,
                 300_000,
                 |_| {
                     programs::structured(programs::StructCfg {
@@ -244,7 +244,7 @@ pub fn property() -> Property {
                 },
                 oracle,
             ),
-            prop_sub("cf.eval", 8_000, 400_000, |_| eval_case(), oracle_eval),
+            prop_sub("cf.eval", 24_000, 400_000, |_| eval_case(), oracle_eval),
         ],
     }
 }
